@@ -139,6 +139,27 @@ pub fn generate(tier: Tier, rng: &mut Rng) -> Vec<Case> {
             out.push(c);
         }
     }
+    // the names of the macros used in shapes that are NOT macros (wrong arity, no receiver, has()
+    // with a receiver): the parser leaves an ordinary call, the name is reported as a function, and
+    // a host that registers a function of that name gets it called
+    for src in [
+        "filter(a)", "a.map(1)", "[1, 2].all(x, x > 0, g(x))", "has(a, 1)", "exists_one()", "[1].map(x, a.exists(x))", "a.has(b.f)", "all(a, b)", "map(a)", "a.filter()", "exists(a, b, c)", "a.existsOne(b)",
+        "[1].map(x, filter(x))", "has() || has(a, b, c)", "a.all(b) && c.exists_one(d)", "[a.map(b)].map(x, x)",
+    ] {
+        let Ok(ast) = cel_parser::Parser::new().parse(src) else { continue };
+        for full in [true, true, false, false] {
+            let mut spec = gen_ctx(rng, full);
+            for f in ["has", "all", "exists", "exists_one", "existsOne", "map", "filter"] {
+                if full || rng.chance(1, 2) {
+                    spec.fns.push((f.to_string(), FnSpec::Host(vec!["args".into()], Body::Echo)));
+                }
+            }
+            let mut c = Case::new("refexec", format!("{} {}", spec.to_sx().to_text(), expr_to_sx(&ast).to_text()));
+            c.src = Some(src.to_string());
+            c.tags = vec![if full { "all-defined" } else { "partial-ctx" }, "names", "macro-names-as-functions"];
+            out.push(c);
+        }
+    }
     while out.len() < n {
         let d = 1 + rng.below(6) as u32;
         let src = gen(rng, d);
